@@ -22,46 +22,70 @@ type Chain struct {
 	QBits []int
 	PBits []int
 	CI    bool // conjugate-invariant ring Z[X+X^-1]/(X^2N+1)
+	// QAround, when set, replaces QBits: the Q primes are the NTT-friendly primes just below these values (sizes that
+	// are not near a power of two, so that the partial products Q_0..Q_k have varied fractional bit lengths).
+	QAround []uint64
 }
 
 // The catalogue of chains (DESIGN §5): equal sizes with #P not dividing #Q, unequal sizes (so that
 // the per-modulus base-two digit counts differ), smallest prime first, no auxiliary modulus.
 var (
-	ChainMid   = Chain{"mid", 4, []int{30, 30, 30}, []int{30, 30}, false}
-	ChainMixed = Chain{"mixed", 4, []int{55, 30, 45, 36}, []int{56}, false}
-	ChainMixup = Chain{"mixup", 4, []int{30, 55, 40}, []int{56}, false}
-	ChainNoP   = Chain{"nop", 4, []int{30, 30}, nil, false}
-	ChainBig   = Chain{"big", 4, []int{60, 59}, []int{61}, false}
+	ChainMid   = Chain{"mid", 4, []int{30, 30, 30}, []int{30, 30}, false, nil}
+	ChainMixed = Chain{"mixed", 4, []int{55, 30, 45, 36}, []int{56}, false, nil}
+	ChainMixup = Chain{"mixup", 4, []int{30, 55, 40}, []int{56}, false, nil}
+	ChainNoP   = Chain{"nop", 4, []int{30, 30}, nil, false, nil}
+	ChainBig   = Chain{"big", 4, []int{60, 59}, []int{61}, false, nil}
 	// ChainBig61: the largest primes the library accepts, in Q and in P: lazily reduced sums of k values in [0,cq)
 	// cross 2^64 here first (c*k*q > 2^64 from 5..8 parties on)
-	ChainBig61 = Chain{"big61", 4, []int{61, 60, 61}, []int{61, 61}, false}
-	ChainMid5  = Chain{"mid5", 5, []int{30, 30, 30}, []int{30, 30}, false}
+	ChainBig61 = Chain{"big61", 4, []int{61, 60, 61}, []int{61, 61}, false, nil}
+	ChainMid5  = Chain{"mid5", 5, []int{30, 30, 30}, []int{30, 30}, false, nil}
 	// conjugate-invariant rings: even and odd log N, with and without unequal prime sizes / P
-	ChainMidCI   = Chain{"midci", 4, []int{30, 30, 30}, []int{30, 30}, true}
-	ChainMixedCI = Chain{"mixedci", 5, []int{55, 30, 45, 36}, []int{56}, true}
-	ChainNoPCI   = Chain{"nopci", 5, []int{30, 30}, nil, true}
+	ChainMidCI   = Chain{"midci", 4, []int{30, 30, 30}, []int{30, 30}, true, nil}
+	ChainMixedCI = Chain{"mixedci", 5, []int{55, 30, 45, 36}, []int{56}, true, nil}
+	ChainNoPCI   = Chain{"nopci", 5, []int{30, 30}, nil, true, nil}
 	// ChainTiny: the smallest NTT-friendly primes (bits 0 = smallest), so that residues of public points collide easily
-	ChainTiny = Chain{"tiny", 4, []int{0, 0, 0}, []int{0}, false}
+	ChainTiny = Chain{"tiny", 4, []int{0, 0, 0}, []int{0}, false, nil}
 	// CKKS chains: enough modulus below the top for GetMinimumLevelForRefresh(128, scale, N, Q) to have room
-	ChainCK40 = Chain{"ck40", 4, []int{60, 50, 50, 40, 40, 40}, []int{61}, false}
-	ChainCK25 = Chain{"ck25", 5, []int{55, 50, 50, 25, 25}, []int{56}, false}
+	ChainCK40 = Chain{"ck40", 4, []int{60, 50, 50, 40, 40, 40}, []int{61}, false, nil}
+	ChainCK25 = Chain{"ck25", 5, []int{55, 50, 50, 25, 25}, []int{56}, false, nil}
 	// high-precision CKKS: scale 2^90 (two 45-bit primes per rescale), enough modulus for lambda=128 masks
-	ChainCK90   = Chain{"ck90", 4, []int{60, 60, 60, 55, 45, 45, 45, 45}, []int{61, 61}, false}
-	ChainCK40CI = Chain{"ck40ci", 4, []int{60, 50, 50, 40, 40, 40}, []int{61}, true}
-	ChainCK25CI = Chain{"ck25ci", 5, []int{55, 50, 50, 25, 25}, []int{56}, true}
+	ChainCK90   = Chain{"ck90", 4, []int{60, 60, 60, 55, 45, 45, 45, 45}, []int{61, 61}, false, nil}
+	ChainCK40CI = Chain{"ck40ci", 4, []int{60, 50, 50, 40, 40, 40}, []int{61}, true, nil}
+	ChainCK25CI = Chain{"ck25ci", 5, []int{55, 50, 50, 25, 25}, []int{56}, true, nil}
 	// output parameter sets of the parameter-switching masked transforms: another chain of the same degree, and the
 	// same shape at twice / half the degree (the moduli differ with the degree: they are 1 mod 2^(LogN+2))
-	ChainCK40x  = Chain{"ck40x", 4, []int{58, 45, 45, 45}, []int{59}, false}
-	ChainCK40N5 = Chain{"ck40n5", 5, []int{58, 45, 45, 45}, []int{59}, false}
-	ChainCK25N4 = Chain{"ck25n4", 4, []int{55, 45, 45, 45}, []int{56}, false}
+	ChainCK40x  = Chain{"ck40x", 4, []int{58, 45, 45, 45}, []int{59}, false, nil}
+	ChainCK40N5 = Chain{"ck40n5", 5, []int{58, 45, 45, 45}, []int{59}, false, nil}
+	ChainCK25N4 = Chain{"ck25n4", 4, []int{55, 45, 45, 45}, []int{56}, false, nil}
+	// ChainCKFrac: prime sizes between powers of two (1.37*2^44, 1.21*2^43, 1.6*2^42, 1.13*2^45, 1.45*2^40, 1.27*2^39):
+	// the bit lengths of Q_0..Q_k have fractional parts spread over [0,1), so that for every party count some
+	// (lambda, k) puts Q_k less than one bit above the mask bound
+	ChainCKFrac = Chain{Name: "ckfrac", LogN: 4, PBits: []int{61}, QAround: []uint64{
+		137 * (1 << 44) / 100, 121 * (1 << 43) / 100, 160 * (1 << 42) / 100, 113 * (1 << 45) / 100, 145 * (1 << 40) / 100, 127 * (1 << 39) / 100}}
 	// Tight chains (primes just above a power of two): at level 2, Q is barely above N_parties * 2^logBound with
 	// logBound = 128+40, i.e. GetMinimumLevelForRefresh's answer leaves no slack (1 party: 2^168, 2 parties: 2^169)
-	ChainCKTight1 = Chain{"cktight1", 4, []int{-60, -54, -54, 40}, []int{61}, false}
-	ChainCKTight2 = Chain{"cktight2", 4, []int{-60, -55, -54, 40}, []int{61}, false}
+	ChainCKTight1 = Chain{"cktight1", 4, []int{-60, -54, -54, 40}, []int{61}, false, nil}
+	ChainCKTight2 = Chain{"cktight2", 4, []int{-60, -55, -54, 40}, []int{61}, false, nil}
 )
 
 // Moduli returns distinct primes of the requested sizes.
 func (ch Chain) Moduli() (Q, P []uint64) {
+	if len(ch.QAround) > 0 {
+		seen := map[uint64]bool{}
+		for _, v := range ch.QAround {
+			for _, q := range ref.PrimesNear(v, uint64(1)<<uint(ch.LogN+2), 4, true) {
+				if !seen[q] {
+					seen[q] = true
+					Q = append(Q, q)
+					break
+				}
+			}
+		}
+		for i, b := range ch.PBits {
+			P = append(P, uni.Primes(ch.LogN, b, len(ch.PBits))[i])
+		}
+		return
+	}
 	need := map[int]int{}
 	for _, b := range ch.QBits {
 		need[b]++
